@@ -62,6 +62,14 @@ func genC05Maps(level int) []*MapScen {
 				}
 			}
 		}
+		if level >= 1 && c != CMap {
+			// four racers
+			for _, a := range []MIn{opLoS, opLoC, opInc} {
+				for _, init := range [][]int{{0, 0}, {1, 0}} {
+					add(&MapScen{Rel: RelSS, NKeys: 2, Init: init, Table: TPlain, Bound: 3, Threads: [][]MIn{{on(a, 0)}, {on(a, 0)}, {on(a, 0)}, {on(a, 0)}}})
+				}
+			}
+		}
 		// mixed: a deleter among get-or-create racers (user function must still run at most once per call)
 		for _, a := range goc {
 			add(&MapScen{Rel: RelSS, NKeys: 2, Init: []int{1, 0}, Table: TPlain, Threads: [][]MIn{{on(a, 0)}, {on(a, 0)}, {on(opDelete, 0)}}})
